@@ -235,14 +235,17 @@ def check_history(res, scn, *, resumed=False, props=("c18", "c08")):
         if le is not None and len(pops) >= 2 and (nf is None or nf == scn["n_samples"]) and pops[0].beta in (0, 0.0) \
                 and all(p.beta is not None for p in pops):
             terms, ok = [], True
-            for i in range(1, len(pops)):
+            # the moves of THIS run start at the last stored population that is still at temperature 0 (population 0 in a
+            # well-formed history: temperatures strictly increase; anything recorded before it belongs to an earlier call)
+            start = max(i for i, p in enumerate(pops) if float(p.beta) == 0.0)
+            for i in range(start + 1, len(pops)):
                 x, ll, lp, lq = pop_arrays(pops[i - 1])
                 b0, b1 = float(pops[i - 1].beta), float(pops[i].beta)
                 if not (b1 > b0) or f32_unresolvable(bits, ll, lp, lq):
                     ok = False
                     break
                 terms.append(M.log_ratio(M.incr_logw(ll, lp, lq, b0, b1)))
-            if ok and float(pops[-1].beta) == beta[-1]:
+            if ok and terms and float(pops[-1].beta) == beta[-1]:
                 want_def = float(np.sum(terms))
                 if not close(le, want_def, rtol=t["rtol"] * 4, atol=t["atol"] * 4 * len(terms)):
                     out.append(
